@@ -4,6 +4,7 @@
 import Lumina.Model.HeaderVerify
 import Lumina.Model.CommitBridge
 import Lumina.Spec.C02
+import Lumina.Spec.C01
 
 namespace Lumina.Model.HeaderVerify
 open Lumina.Model.Commit
@@ -19,5 +20,34 @@ def toH (h : Hdr) : Lumina.Spec.C02.H :=
     powers := h.valset.vals.map (·.power)
     vaddrs := h.valset.vals.map (·.addr)
     entries := h.sigs.map toEntry }
+
+end Lumina.Model.HeaderVerify
+
+namespace Lumina.Model.HeaderVerify
+open Lumina.Model.Commit
+
+/-- the C01 spec's view of an extended header, hashes computed with `P` -/
+def toView {S : Type} (P : Prims S) (eh : ExtHeader S) : Lumina.Spec.C01.View :=
+  { versionBlock := eh.header.versionBlock
+    versionApp := eh.header.versionApp
+    chainIdLen := eh.header.chainId.length
+    height := eh.header.height
+    hasLastBlockId := eh.header.lastBlockId.isSome
+    validatorsHash := eh.header.validatorsHash
+    dataHash := eh.header.dataHash.getD none
+    commitHeight := eh.commit.height
+    commitBlockHash := eh.commit.blockId.hash
+    commitBlockIdZero := eh.commit.blockId.isZero
+    entriesHaveSig := eh.commit.sigs.all (fun e => commitSigValidateBasic e.toCSig)
+    entries := (eh.commit.sigs.map EntryF.toCSig).map toEntry
+    powers := eh.valset.toValSet.vals.map (·.power)
+    vaddrs := eh.valset.toValSet.vals.map (·.addr)
+    storedTotal := eh.valset.total
+    hasProposer := eh.valset.hasProposer
+    rowCount := eh.dah.rows.length
+    colCount := eh.dah.cols.length
+    headerHash := P.hHeader eh.header.canon
+    valsetHash := P.hValset eh.valset.hashed
+    dahHash := P.hDah (eh.dah.rows ++ eh.dah.cols) }
 
 end Lumina.Model.HeaderVerify
